@@ -391,3 +391,16 @@ class Ctx:
         full = z3.And(*extra, b) if extra else b
         q = z3.ForAll([k], z3.Implies(z3.And(k >= lo, k < zint(length)), full))
         self.assume(q)
+
+
+def patterns_for(term, bound):
+    """[term] if it is an application of an uninterpreted function mentioning every bound variable, else []"""
+    try:
+        if not (z3.is_app(term) and term.decl().kind() == z3.Z3_OP_UNINTERPRETED and term.num_args() > 0):
+            return []
+        txt = term.sexpr()
+        if all(str(b) in txt for b in bound):
+            return [term]
+    except Exception:
+        pass
+    return []
